@@ -73,7 +73,8 @@ class OptProbe:
 
 # ------------------------------------------------------------------------------------------------ optimiser-biased family
 def opt_family(rng, version):
-    """Programs made of the shapes the slot optimiser and the allocator look at."""
+    """Programs made of the shapes the slot optimiser and the allocator look at.  The load is the first operand of the consuming
+    expression, so that `store x; load x` are adjacent ops of one block - the only pattern the optimiser rewrites."""
     g = recipes.Gen(rng, version=version, mode="app", allow_subs=True, min_subs=rng.choice([0, 1]), rec_p=.3)
     r = g.program()
     sc_u = [d["id"] for d in r["vars"] if d["t"] == "u" and d.get("kind", "sv") == "sv" and not d["id"].startswith("gc")]
@@ -87,18 +88,18 @@ def opt_family(rng, version):
         tag = ["bytes", ("t%d" % k).encode().hex()]
         if shape == "pair":
             extra_vars.append({"id": vid, "t": "u", "kind": "sv", "slot": None})
-            stmts += [["store", vid, val], ["log", ["nary", "concat", [tag, ["itob", ["load", vid]]]]]]
+            stmts += [["store", vid, val], ["log", ["nary", "concat", [["itob", ["load", vid]], tag]]]]
         elif shape == "pair_bytes":
             extra_vars.append({"id": vid, "t": "b", "kind": "sv", "slot": None})
             stmts += [["store", vid, ["itob", val]], ["log", ["nary", "concat", [["load", vid], tag]]]]
         elif shape == "pair_twice_loaded":
             extra_vars.append({"id": vid, "t": "u", "kind": "sv", "slot": None})
-            stmts += [["store", vid, val], ["log", ["nary", "concat", [tag, ["itob", ["load", vid]]]]],
+            stmts += [["store", vid, val], ["log", ["nary", "concat", [["itob", ["load", vid]], tag]]],
                       ["log", ["itob", ["bin", "+", ["bin", "%", ["load", vid], ["int", 1000]], ["int", 1]]]]]
         elif shape == "branch_store":
             extra_vars.append({"id": vid, "t": "u", "kind": "sv", "slot": None})
             stmts += [["if", g.cond(1, {"u": sc_u, "b": [], "params": []}), ["store", vid, val], ["store", vid, ["int", k]]],
-                      ["log", ["nary", "concat", [tag, ["itob", ["load", vid]]]]]]
+                      ["log", ["nary", "concat", [["itob", ["load", vid]], tag]]]]
         elif shape == "never_loaded":
             extra_vars.append({"id": vid, "t": "u", "kind": "sv", "slot": None})
             stmts += [["store", vid, val], ["log", tag]]
@@ -106,22 +107,22 @@ def opt_family(rng, version):
             used = {d.get("slot") for d in r["vars"] + extra_vars}
             free = [x for x in [3, 7, 77, 150, 201, 253] if x not in used]
             extra_vars.append({"id": vid, "t": "u", "kind": "sv", "slot": rng.choice(free)})
-            stmts += [["store", vid, val], ["log", ["nary", "concat", [tag, ["itob", ["load", vid]]]]]]
+            stmts += [["store", vid, val], ["log", ["nary", "concat", [["itob", ["load", vid]], tag]]]]
         elif shape == "abi_pair" and version >= 5:
             extra_vars.append({"id": vid, "t": rng.choice(["uint64", "uint16", "bool"]), "kind": "abi"})
-            stmts += [["store", vid, ["bin", "%", val, ["int", 2]]], ["log", ["nary", "concat", [tag, ["itob", ["load", vid]]]]]]
+            stmts += [["store", vid, ["bin", "%", val, ["int", 2]]], ["log", ["nary", "concat", [["itob", ["load", vid]], tag]]]]
         elif shape == "pair_in_loop":
             extra_vars.append({"id": vid, "t": "u", "kind": "sv", "slot": None})
             cid = "tc%d" % k
             extra_vars.append({"id": cid, "t": "u", "kind": "sv", "slot": None})
             stmts += [["for", ["store", cid, ["int", 0]], ["bin", "<", ["load", cid], ["int", rng.choice([1, 2, 3])]],
                        ["store", cid, ["bin", "+", ["load", cid], ["int", 1]]],
-                       ["seq", [["store", vid, ["bin", "+", val, ["load", cid]]], ["log", ["nary", "concat", [tag, ["itob", ["load", vid]]]]]]]]]
+                       ["seq", [["store", vid, ["bin", "+", val, ["load", cid]]], ["log", ["nary", "concat", [["itob", ["load", vid]], tag]]]]]]]
         elif shape == "restore_existing" and sc_u:
             # an existing variable stored again and loaded right away (its other loads keep the optimiser away; when there are
             # none this is the known unpaired-store shape)
             v = rng.choice(sc_u)
-            stmts += [["store", v, val], ["log", ["nary", "concat", [tag, ["itob", ["load", v]]]]]]
+            stmts += [["store", v, val], ["log", ["nary", "concat", [["itob", ["load", v]], tag]]]]
     r["vars"] = r["vars"] + extra_vars
     # splice the family statements at random positions of main (after the initialisers)
     ninit = 0
